@@ -21,6 +21,21 @@ Theorem escape_free_patterns_agree :
   forall s : str, existsb (N.eqb c_bslash) s = false -> with_escape s = without_escape s.
 Proof. exact with_escape_no_bslash. Qed.
 
+(* a backslash makes the next character a literal pattern character, whatever it is *)
+Theorem escaped_chars_are_literal :
+  forall s : str, with_escape (flat_map (fun c => [c_bslash; c]) s) = map Literal s.
+Proof. exact with_escape_all_escaped. Qed.
+
+(* the shell reads the unquoted result of an expansion as with_escape does (a backslash quotes the next character), except that a backslash at the very end stays an ordinary character *)
+Theorem unquoted_expansion_reads_like_with_escape :
+  forall s : str, to_pattern_chars (apply_escapes (map (fun c => mkAchar c false false) s)) = with_escape s ++ (if dangling_bslash s then [Normal c_bslash] else []).
+Proof. exact expansion_chars_like_with_escape. Qed.
+
+(* the model of Pattern::parse_with_config is total on its domain: the emitted regex is always inside the modelled syntax and no fuel runs out *)
+Theorem compile_has_definite_outcome :
+  forall (cfg : config) (p : list pchar) (a : ast), parse_pattern p = Some a -> closed_complements a = true -> (exists b : body, compile cfg p = COk b) \/ (exists e : perr, compile cfg p = CErr e).
+Proof. exact compile_total. Qed.
+
 (* the emitted regex string, read by the regex syntax, is the intended structure (every special character of either language is escaped where needed); an error is reported exactly when no such structure exists *)
 Theorem regex_escaping_complete :
   forall (cfg : config) (a : ast), closed_complements a = true -> match ast_fmt cfg a with | EOk s => parse_rx s = match rx_of_ast cfg a with Some r => RxOk r | None => RxErr end | EErr _ => rx_of_ast cfg a = None end.
@@ -58,8 +73,8 @@ Proof. exact dmatch_iff. Qed.
 
 (* a compiled pattern anchored at both ends (case) accepts exactly the strings POSIX notation denotes; compilation fails exactly for invalid patterns *)
 Theorem case_pattern_matches_iff_denoted :
-  forall (p : list pchar) (a : ast) (s : str), parse_pattern p = Some a -> plain_complements a = true -> match compile case_config p with | COk b => pat_is_match case_config b s = true <-> Matches a s | CErr _ => valid_ast a = false | CUnsup | CFuel => False end.
-Proof. exact case_pattern_correct_plain. Qed.
+  forall (p : list pchar) (a : ast) (s : str), parse_pattern p = Some a -> closed_complements a = true -> match compile case_config p with | COk b => pat_is_match case_config b s = true <-> Matches a s | CErr _ => valid_ast a = false | CUnsup | CFuel => False end.
+Proof. exact case_pattern_correct_closed. Qed.
 
 (* the four forms # ## % %% remove exactly the shortest / longest matching prefix / suffix (find for three of them, the rfind loop for %) *)
 Theorem trim_forms_remove_shortest_longest :
@@ -116,29 +131,22 @@ Theorem case_bodies_follow_terminators :
   forall (subject : str) (items : list (list (list pchar) * continuation)) (sitems : list (list ast * continuation)) (idx : nat) (falling : bool), Forall2 (fun it sit => item_parsed (fst it) (fst sit) /\ snd it = snd sit) items sitems -> case_run subject items idx falling = Some (spec_case_run subject sitems idx falling).
 Proof. exact case_run_spec. Qed.
 
-(* F8: with a two-character collating symbol ${v#p} need not remove the shortest prefix ([[.ch.]c]h on chh) *)
+(* F31 (open finding): with a two-character collating symbol ${v#p} need not remove the shortest prefix ([[.ch.]c]h on chh) *)
 Theorem prefix_shortest_multichar_refuted :
   exists (p : list pchar) (a : ast) (v out : str), parse_pattern p = Some a /\ trim_model Prefix Shortest p v = Some out /\ ~ TrimSpec Prefix Shortest a v out.
-Proof. exact f8_prefix_shortest_refuted. Qed.
+Proof. exact f31_prefix_shortest_refuted. Qed.
 
-(* F8: ... nor ${v##p} the longest ([[.a.][.ab.]] on ab) *)
+(* F31: ... nor ${v##p} the longest ([[.a.][.ab.]] on ab) *)
 Theorem prefix_longest_multichar_refuted :
   exists (p : list pchar) (a : ast) (v out : str), parse_pattern p = Some a /\ trim_model Prefix Longest p v = Some out /\ ~ TrimSpec Prefix Longest a v out.
-Proof. exact f8_prefix_longest_refuted. Qed.
-
-(* F9: a collating symbol of one non-ASCII character is dropped from a complemented bracket ([![.e'.]a] matches e') *)
-Theorem complement_nonascii_symbol_refuted :
-  exists (p : list pchar) (a : ast) (b : body) (s : str), parse_pattern p = Some a /\ compile case_config p = COk b /\ pat_is_match case_config b s = true /\ ~ Matches a s.
-Proof. exact f9_complement_refuted. Qed.
-
-(* F9: ... or leaves the broken regex [^] ([![.e'.]] matches nothing) *)
-Theorem complement_nonascii_broken_regex_refuted :
-  exists (p : list pchar) (a : ast) (s : str), parse_pattern p = Some a /\ compile case_config p = CErr ERegex /\ Matches a s.
-Proof. exact f9_broken_regex_refuted. Qed.
+Proof. exact f31_prefix_longest_refuted. Qed.
 
 Print Assumptions parser_reads_posix_grammar.
 Print Assumptions parser_fuel_suffices.
 Print Assumptions escape_free_patterns_agree.
+Print Assumptions escaped_chars_are_literal.
+Print Assumptions unquoted_expansion_reads_like_with_escape.
+Print Assumptions compile_has_definite_outcome.
 Print Assumptions regex_escaping_complete.
 Print Assumptions class_tables_agree.
 Print Assumptions leftmost_first_sound.
@@ -160,5 +168,3 @@ Print Assumptions case_with_breaks_runs_only_that_item.
 Print Assumptions case_bodies_follow_terminators.
 Print Assumptions prefix_shortest_multichar_refuted.
 Print Assumptions prefix_longest_multichar_refuted.
-Print Assumptions complement_nonascii_symbol_refuted.
-Print Assumptions complement_nonascii_broken_regex_refuted.
